@@ -3,6 +3,9 @@ import Proofs.C18.Float
 import Proofs.C18.Funding
 import Proofs.C18.Amount
 import Model.C18.SpendSize
+import Proofs.C18.Estimate
+import Proofs.C18.SigOps
+import Props.C10
 /-!
 # C18 — sizes, fees and amounts are exact integer accounting (DESIGN §3 C18)
 
@@ -174,9 +177,9 @@ theorem funding_conserves (a : FundArgs) (est : Bool → Except PyErr Int) (r : 
     (h : fund a est = .ok r) : a.totalIn = a.totalOut + r.fee + r.change.getD 0 := by
   obtain ⟨_, h | h⟩ := fund_ok a est r h
   · obtain ⟨_, _, _, _, _, _, hr⟩ := fundNoChange_ok a est r h.1
-    subst hr; simp; omega
+    subst hr; simp <;> omega
   · obtain ⟨_, _, fee, _, _, _, _, _, _, _, hr⟩ := h
-    subst hr; simp; omega
+    subst hr; simp <;> omega
 
 /-- The fee returned is at least what the rate asks of the estimated size of the psbt returned
     (with the change output when there is one, without it when it was dropped). -/
@@ -297,7 +300,7 @@ theorem amount_roundtrip (s : Int) :
     unfold btcFromSats
     rw [valid_sats_amount_eq]
     have : ¬ (0 ≤ s ∧ s ≤ Gen.Fee.MAX_SATOSHI) := by rw [hm]; exact h
-    simp [this]; rfl
+    simp [this] <;> rfl
 
 /-- `sats_from_btc` is exact and refuses the rest: an answer `s` is the amount times 10^8 *exactly*
     (so a ninth decimal that is not zero is refused, never rounded), lies in the money range, and
@@ -317,7 +320,7 @@ theorem sats_from_btc_exact (d : Dec) (s : Int) (h : satsFromBtc d = .ok s) :
     by_cases hr : (¬ neg = true ∨ c = 0) ∧ absLe c e 21000000 = true
     · simp only [hr, and_self, not_true_eq_false, if_false] at h
       cases hsc : scaled 8 c e with
-      | none => simp [hsc] at h; cases h
+      | none => (simp [hsc] at h) <;> cases h
       | some n =>
         simp only [hsc, Option.isNone_some, Bool.false_eq_true, if_false] at h
         have hs : s = (n : Int) := by
@@ -417,11 +420,11 @@ example : feeRateFromSatsPerVbyte (.fin false 9999999999999999 0) = .ok 99999999
 example : feeRateFromSatsPerVbyte (.fin false 1 16) = .error .value := by decide
 example : feeRateFromSatsPerVbyte (.fin true 0 999999999) = .ok 0 := by decide
 
-/-! ## T4 (partial) — the signature sizes the estimate assumes are upper bounds -/
+/-! ## T4 — estimate ≥ actual -/
 
 /-- `psbt_size.SIG_SIZE` (72, sighash byte included) bounds every low-s ECDSA signature with
     r < 2^256, s < 2^255 — and a high-s one can need one byte more, never two. -/
-theorem sig_size_is_upper_bound_partial (r s : Nat) (hr : r < 2 ^ 256) :
+theorem sig_size_is_upper_bound (r s : Nat) (hr : r < 2 ^ 256) :
     (s < 2 ^ 255 → ((derSigLen r s + 1 : Nat) : Int) ≤ Gen.Fee.SIG_SIZE) ∧
     (s < 2 ^ 256 → ((derSigLen r s + 1 : Nat) : Int) ≤ Gen.Fee.SIG_SIZE + 1) := by
   have hb := natBitLength_le r 256 hr
@@ -433,13 +436,237 @@ theorem sig_size_is_upper_bound_partial (r s : Nat) (hr : r < 2 ^ 256) :
   · intro hs
     have := natBitLength_le s 256 hs
     omega
--- FULL T4 (not proved): for each script template, estimated_input_weight ≥ weight of the finalized
--- input for every signature / key compression, hence estimated_weight ≥ final weight for any mix.
--- Missing: a model of psbt_size's per-template element lists and of the finalizer's output; the
--- statement is checked on the real code by the `psbt.estimate` oracle (18 templates, signed txs).
-
 example : derSigLen (2 ^ 256 - 1) (2 ^ 255 - 1) + 1 = 72 := by decide +kernel
 example : derSigLen (2 ^ 256 - 1) (2 ^ 256 - 1) + 1 = 73 := by decide +kernel
 example : derSigLen 1 1 = 8 := by decide
+
+/-! ### per template: `estimated_input_sizes` covers what C10's finalizer lays out
+
+`tp` is `type_and_payload`, `H` hash160, `sizer` the caller's answer, `vk` key validity; a signature
+is any byte string of at most SIG_SIZE bytes (by `sig_size_is_upper_bound`: every low-s DER signature
+with its hash-type byte), a key any byte string no longer than `_pub_key_size` answers.
+`coversIn (sizesOf fin) est`: the script_sig is no longer than estimated and the witness has the
+same number of elements, each no longer than estimated. -/
+
+open Btc.Script Btc.Spend in
+/-- p2pkh (either key compression, as long as `_pub_key_size` knows the key's size) -/
+theorem estimate_covers_p2pkh (vk : Bytes → Bool) (tp : Bytes → Ty × Bytes) (H : Bytes → Bytes) (sizer : Option (List Nat))
+    (h pk sig : Bytes) (hd : List Bytes) (sht : Option Nat) (hl : h.length = 20)
+    (htp : tp (p2pkh h) = (.p2pkh, h)) (hs : sig.length ≤ SIG)
+    (hk : pk.length ≤ pubKeySize H ⟨some (p2pkh h), [], [], hd, sht, false, [], []⟩ h) :
+    ∃ est fin, estimatedInputSizes tp H sizer ⟨some (p2pkh h), [], [], hd, sht, false, [], []⟩ = .ok est ∧
+      finalizedInput vk ⟨some (p2pkh h), [], [], [(pk, sig)]⟩ = .ok fin ∧ coversIn (sizesOf fin) est := by
+  have hest : estimatedInputSizes tp H sizer ⟨some (p2pkh h), [], [], hd, sht, false, [], []⟩ =
+      .ok ((serializePushes ([SIG, pubKeySize H ⟨some (p2pkh h), [], [], hd, sht, false, [], []⟩ h].map zeros ++ [])).length, []) := by
+    simp [estimatedInputSizes, htp, solutionSizes, Except.map]
+  refine ⟨_, _, hest, Props.C10.finalize_p2pkh vk h pk sig hl, ?_, trivial⟩
+  have := pushes_cover [sig, pk] [SIG, pubKeySize H ⟨some (p2pkh h), [], [], hd, sht, false, [], []⟩ h] [] ⟨hs, hk, trivial⟩
+  simpa [sizesOf, serializePushes] using this
+
+open Btc.Script Btc.Spend in
+/-- p2pk -/
+theorem estimate_covers_p2pk (vk : Bytes → Bool) (tp : Bytes → Ty × Bytes) (H : Bytes → Bytes) (sizer : Option (List Nat))
+    (pk sig : Bytes) (hd : List Bytes) (sht : Option Nat) (hl : pk.length = 33)
+    (htp : tp (p2pk pk) = (.p2pk, pk)) (hs : sig.length ≤ SIG) :
+    ∃ est fin, estimatedInputSizes tp H sizer ⟨some (p2pk pk), [], [], hd, sht, false, [], []⟩ = .ok est ∧
+      finalizedInput vk ⟨some (p2pk pk), [], [], [(pk, sig)]⟩ = .ok fin ∧ coversIn (sizesOf fin) est := by
+  have hest : estimatedInputSizes tp H sizer ⟨some (p2pk pk), [], [], hd, sht, false, [], []⟩ =
+      .ok ((serializePushes ([SIG].map zeros ++ [])).length, []) := by
+    simp [estimatedInputSizes, htp, solutionSizes, Except.map]
+  refine ⟨_, _, hest, Props.C10.finalize_p2pk vk pk sig hl, ?_, trivial⟩
+  have := pushes_cover [sig] [SIG] [] ⟨hs, trivial⟩
+  simpa [sizesOf, serializePushes] using this
+
+open Btc.Script Btc.Spend in
+/-- p2wpkh (BIP143: compressed keys only) -/
+theorem estimate_covers_p2wpkh (vk : Bytes → Bool) (tp : Bytes → Ty × Bytes) (H : Bytes → Bytes) (sizer : Option (List Nat))
+    (h pk sig : Bytes) (hd : List Bytes) (sht : Option Nat) (hl : h.length = 20)
+    (htp : tp (p2wpkh h) = (.p2wpkh, h)) (hs : sig.length ≤ SIG) (hk : pk.length ≤ KEY) :
+    ∃ est fin, estimatedInputSizes tp H sizer ⟨some (p2wpkh h), [], [], hd, sht, false, [], []⟩ = .ok est ∧
+      finalizedInput vk ⟨some (p2wpkh h), [], [], [(pk, sig)]⟩ = .ok fin ∧ coversIn (sizesOf fin) est := by
+  have hest : estimatedInputSizes tp H sizer ⟨some (p2wpkh h), [], [], hd, sht, false, [], []⟩ =
+      .ok ((serializePushes []).length, [SIG, KEY]) := by
+    simp [estimatedInputSizes, htp, solutionSizes, Except.map]
+  exact ⟨_, _, hest, Props.C10.finalize_p2wpkh vk h pk sig hl, by simp [sizesOf, serializePushes], hs, hk, trivial⟩
+
+open Btc.Script Btc.Spend in
+/-- p2sh-p2wpkh: the script_sig is the push of the redeem script on both sides -/
+theorem estimate_covers_p2sh_p2wpkh (vk : Bytes → Bool) (tp : Bytes → Ty × Bytes) (H : Bytes → Bytes)
+    (sizer : Option (List Nat)) (h hr pk sig : Bytes) (hd : List Bytes) (sht : Option Nat)
+    (hl : h.length = 20) (hrl : hr.length = 20)
+    (htp : tp (p2sh hr) = (.p2sh, hr)) (htp2 : tp (p2wpkh h) = (.p2wpkh, h))
+    (hs : sig.length ≤ SIG) (hk : pk.length ≤ KEY) :
+    ∃ est fin, estimatedInputSizes tp H sizer ⟨some (p2sh hr), p2wpkh h, [], hd, sht, false, [], []⟩ = .ok est ∧
+      finalizedInput vk ⟨some (p2sh hr), p2wpkh h, [], [(pk, sig)]⟩ = .ok fin ∧ coversIn (sizesOf fin) est := by
+  have hne : (p2wpkh h).isEmpty = false := by simp [p2wpkh, Gen.Spend.P2WPKH_PREFIX]
+  have hest : estimatedInputSizes tp H sizer ⟨some (p2sh hr), p2wpkh h, [], hd, sht, false, [], []⟩ =
+      .ok ((serializePushes [p2wpkh h]).length, [SIG, KEY]) := by
+    simp [estimatedInputSizes, htp, htp2, hne, solutionSizes, Except.map]
+  exact ⟨_, _, hest, Props.C10.finalize_p2sh_p2wpkh vk h hr pk sig hl hrl,
+    by simp [sizesOf, serializePushes], hs, hk, trivial⟩
+
+open Btc.Script Btc.Spend in
+/-- k-of-n multisig, bare or behind p2sh (`redeem` empty = bare): the layout of C10's closure theorems,
+    `OP_0 sig₁ … sig_k [redeem]`, for ANY k signatures of at most SIG_SIZE bytes -/
+theorem estimate_covers_multisig_legacy (tp : Bytes → Ty × Bytes) (H : Bytes → Bytes) (sizer : Option (List Nat))
+    (spk redeem pl pl0 : Bytes) (sigs : List Bytes) (hd : List Bytes) (sht : Option Nat)
+    (htp : if redeem.isEmpty then tp spk = (.p2ms, pl) else tp spk = (.p2sh, pl0) ∧ tp redeem = (.p2ms, pl))
+    (hm : Btc.Script.Core.getB pl 0 = Gen.Fee.OP_INT_OFFSET.toNat + sigs.length)
+    (hs : ∀ s ∈ sigs, s.length ≤ SIG) :
+    ∃ est, estimatedInputSizes tp H sizer ⟨some spk, redeem, [], hd, sht, false, [], []⟩ = .ok est ∧
+      coversIn (sizesOf (serializePushes (([] :: sigs) ++ (if redeem.isEmpty then [] else [redeem])), [])) est := by
+  have hc : covers ((([] : Bytes) :: sigs).map List.length) (0 :: List.replicate sigs.length SIG) :=
+    ⟨Nat.le_refl _, covers_replicate sigs SIG hs⟩
+  by_cases hr : redeem.isEmpty = true
+  · simp only [hr, if_true] at htp
+    have hest : estimatedInputSizes tp H sizer ⟨some spk, redeem, [], hd, sht, false, [], []⟩ =
+        .ok ((serializePushes ((0 :: List.replicate sigs.length SIG).map zeros ++ [])).length, []) := by
+      simp [estimatedInputSizes, htp, hr, solutionSizes, hm, Except.map]
+    refine ⟨_, hest, ?_, trivial⟩
+    have := pushes_cover ([] :: sigs) (0 :: List.replicate sigs.length SIG) [] hc
+    simpa [sizesOf, hr] using this
+  · simp only [hr, if_false] at htp
+    have hr' : redeem.isEmpty = false := by simpa using hr
+    have hest : estimatedInputSizes tp H sizer ⟨some spk, redeem, [], hd, sht, false, [], []⟩ =
+        .ok ((serializePushes ((0 :: List.replicate sigs.length SIG).map zeros ++ [redeem])).length, []) := by
+      simp [estimatedInputSizes, htp.1, htp.2, hr', solutionSizes, hm, Except.map]
+    refine ⟨_, hest, ?_, trivial⟩
+    have := pushes_cover ([] :: sigs) (0 :: List.replicate sigs.length SIG) [redeem] hc
+    simpa [sizesOf, hr'] using this
+
+open Btc.Script Btc.Spend in
+/-- k-of-n multisig in p2wsh, native or behind p2sh (`redeem` empty = native): witness
+    `[∅, sig₁ … sig_k, witness_script]`, script_sig empty or the push of the redeem script -/
+theorem estimate_covers_multisig_p2wsh (tp : Bytes → Ty × Bytes) (H : Bytes → Bytes) (sizer : Option (List Nat))
+    (spk redeem ws pl pl0 pl1 : Bytes) (sigs : List Bytes) (hd : List Bytes) (sht : Option Nat)
+    (hws : ws.isEmpty = false)
+    (htp : if redeem.isEmpty then tp spk = (.p2wsh, pl0) else tp spk = (.p2sh, pl0) ∧ tp redeem = (.p2wsh, pl1))
+    (htw : tp ws = (.p2ms, pl))
+    (hm : Btc.Script.Core.getB pl 0 = Gen.Fee.OP_INT_OFFSET.toNat + sigs.length)
+    (hs : ∀ s ∈ sigs, s.length ≤ SIG) :
+    ∃ est, estimatedInputSizes tp H sizer ⟨some spk, redeem, ws, hd, sht, false, [], []⟩ = .ok est ∧
+      coversIn (sizesOf (serializePushes (if redeem.isEmpty then [] else [redeem]), ([] :: sigs) ++ [ws])) est := by
+  have hc : covers (((([] : Bytes) :: sigs) ++ [ws]).map List.length) ((0 :: List.replicate sigs.length SIG) ++ [ws.length]) := by
+    rw [List.map_append]
+    exact covers_append _ _ _ _ ⟨Nat.le_refl _, covers_replicate sigs SIG hs⟩ ⟨Nat.le_refl _, trivial⟩
+  by_cases hr : redeem.isEmpty = true
+  · simp only [hr, if_true] at htp
+    have hest : estimatedInputSizes tp H sizer ⟨some spk, redeem, ws, hd, sht, false, [], []⟩ =
+        .ok ((serializePushes []).length, (0 :: List.replicate sigs.length SIG) ++ [ws.length]) := by
+      simp [estimatedInputSizes, htp, hr, p2wshWitnessSizes, hws, htw, solutionSizes, hm, Except.map]
+    exact ⟨_, hest, by simp [sizesOf, hr], by simpa [sizesOf] using hc⟩
+  · simp only [hr, if_false] at htp
+    have hr' : redeem.isEmpty = false := by simpa using hr
+    have hest : estimatedInputSizes tp H sizer ⟨some spk, redeem, ws, hd, sht, false, [], []⟩ =
+        .ok ((serializePushes [redeem]).length, (0 :: List.replicate sigs.length SIG) ++ [ws.length]) := by
+      simp [estimatedInputSizes, htp.1, htp.2, hr', p2wshWitnessSizes, hws, htw, solutionSizes, hm, Except.map]
+    exact ⟨_, hest, by simp [sizesOf, hr'], by simpa [sizesOf] using hc⟩
+
+open Btc.Script Btc.Spend in
+/-- taproot key path: a BIP340 signature is 64 bytes, or 65 with a NON-ZERO hash-type byte (BIP341 forbids an
+    explicit 0x00); the finalizer only accepts it when the byte is the input's `sig_hash_type`, which is what
+    `_taproot_sig_size` reads -/
+theorem estimate_covers_taproot_key (lh : Nat → Bytes → Bytes) (vk : Nat → Bytes → Bool)
+    (vl : Nat → Bytes → Bytes → Bytes → Bool) (tp : Bytes → Ty × Bytes) (H : Bytes → Bytes) (sizer : Option (List Nat))
+    (spk q sig : Bytes) (hd : List Bytes) (sht : Option Nat) (ss : List (Bytes × Bytes)) (ht : Nat)
+    (htp : tp spk = (.p2tr, q))
+    (hlen : sig.length = 64 ∨ (sig.length = 65 ∧ Btc.Script.Core.getB sig 64 ≠ 0))
+    (hht : tapSigHashType sig sht = .ok ht) (hv : vk ht (sig.take 64) = true) :
+    ∃ est fin, estimatedInputSizes tp H sizer ⟨some spk, [], [], hd, sht, false, [], []⟩ = .ok est ∧
+      finalizedTaproot lh vk vl ⟨sht, sig, ss, []⟩ = .ok fin ∧ coversIn (sizesOf fin) est := by
+  have hne : sig.isEmpty = false := by
+    cases sig with
+    | nil => rcases hlen with h | h <;> simp at h
+    | cons _ _ => rfl
+  have hest : estimatedInputSizes tp H sizer ⟨some spk, [], [], hd, sht, false, [], []⟩ =
+      .ok ((serializePushes []).length, [taprootSigSize ⟨some spk, [], [], hd, sht, false, [], []⟩]) := by
+    simp [estimatedInputSizes, htp, taprootWitnessSizes, Except.map]
+  refine ⟨_, _, hest, Props.C10.finalize_taproot_key lh vk vl sht sig ss [] ht hne hht hv, ?_⟩
+  · refine ⟨by simp [sizesOf], ?_, trivial⟩
+    show sig.length ≤ taprootSigSize _
+    unfold taprootSigSize Gen.Fee.taproot_sig_size Gen.Fee.SCHNORR_SIG_SIZE
+    rcases hlen with h64 | ⟨h65, hnz⟩
+    · simp only [h64]; split <;> omega
+    · unfold tapSigHashType at hht
+      simp only [h65, beq_self_eq_true, if_true] at hht
+      split at hht
+      · cases hht
+      · rename_i heq
+        have : sht.getD Gen.Spend.SIGHASH_DEFAULT = Btc.Script.Core.getB sig 64 := by
+          simpa using heq
+        have e0 : Gen.Spend.SIGHASH_DEFAULT = 0 := rfl
+        rw [e0] at this
+        have hnz' : ((sht.getD 0 : Nat) : Int) ≠ 0 := by rw [this]; omega
+        simp only [h65, hnz', if_true]
+        omega
+
+open Btc.Script Btc.Spend in
+/-- taproot script path, single-key leaf: the psbt does not say which leaf will be spent, so the library asks
+    the caller's sizer for the whole witness; with a sizer that answers for this leaf — signature, leaf
+    script, control block — the estimate covers what the finalizer lays out -/
+theorem estimate_covers_taproot_leaf (lh : Nat → Bytes → Bytes) (vk : Nat → Bytes → Bool)
+    (vl : Nat → Bytes → Bytes → Bytes → Bool) (tp : Bytes → Ty × Bytes) (H : Bytes → Bytes)
+    (spk q x lhash sig cb : Bytes) (hd : List Bytes) (sht : Option Nat) (ht s : Nat)
+    (htp : tp spk = (.p2tr, q)) (hx : x.length = 32) (hlh : lhash.length = 32)
+    (hleaf : lh 0xc0 (pkLeaf x) = lhash) (hs : sig.length ≤ s)
+    (hht : tapSigHashType sig sht = .ok ht) (hv : vl ht lhash x (sig.take 64) = true) :
+    ∃ est fin, estimatedInputSizes tp H (some [s, (pkLeaf x).length, cb.length])
+        ⟨some spk, [], [], hd, sht, true, [], []⟩ = .ok est ∧
+      finalizedTaproot lh vk vl ⟨sht, [], [(x ++ lhash, sig)], [(cb, pkLeaf x, 0xc0)]⟩ = .ok fin ∧
+      coversIn (sizesOf fin) est := by
+  have hest : estimatedInputSizes tp H (some [s, (pkLeaf x).length, cb.length])
+      ⟨some spk, [], [], hd, sht, true, [], []⟩ = .ok ((serializePushes []).length, [s, (pkLeaf x).length, cb.length]) := by
+    simp [estimatedInputSizes, htp, taprootWitnessSizes, asked, Except.map]
+  exact ⟨_, _, hest, Props.C10.finalize_taproot_leaf lh vk vl sht x lhash sig cb ht hx hlh hleaf hht hv,
+    by simp [sizesOf], hs, Nat.le_refl _, Nat.le_refl _, trivial⟩
+
+/-- hence, for ANY mix of inputs each covered by its estimate (and the same outputs), the estimated size,
+    stripped size, weight and virtual size are at least those of the transaction that is signed:
+    `Psbt.weight_estimate` is `Tx.weight` of the placeholder transaction, monotone in every element size,
+    across every CompactSize crossing (252/253, 65535/65536) of a script_sig, a witness element or a count. -/
+theorem estimated_weight_covers_any_mix (act est : List (Nat × List Nat)) (nOut outs : Nat)
+    (h : coversIns act est) :
+    txSize true act nOut outs ≤ txSize true est nOut outs ∧
+    txSize false act nOut outs ≤ txSize false est nOut outs ∧
+    txWeight act nOut outs ≤ txWeight est nOut outs ∧
+    (txWeight act nOut outs + 3) / 4 ≤ (txWeight est nOut outs + 3) / 4 := by
+  have h1 := txSize_mono true act est nOut outs h
+  have h2 := txSize_mono false act est nOut outs h
+  have h3 : txWeight act nOut outs ≤ txWeight est nOut outs := by
+    unfold txWeight Gen.Fee.tx_weight; omega
+  exact ⟨h1, h2, h3, by omega⟩
+
+-- non-vacuity: a 71-byte signature and a compressed key against the p2wpkh estimate; a 253-byte script_sig
+-- the classification hypotheses `tp … = …` are met by the concrete `typeAndPayload` the driver runs against btclib
+example : typeAndPayload (fun _ => true) (Btc.Spend.p2pkh (List.replicate 20 7)) = (.p2pkh, List.replicate 20 7) := by decide
+example : typeAndPayload (fun _ => true) (Btc.Spend.p2wpkh (List.replicate 20 7)) = (.p2wpkh, List.replicate 20 7) := by decide
+example : typeAndPayload (fun _ => true) (Btc.Spend.p2sh (List.replicate 20 7)) = (.p2sh, List.replicate 20 7) := by decide
+example : (typeAndPayload (fun _ => true) (Btc.Spend.p2tr (List.replicate 32 7))).1 = .p2tr := by decide
+example : estimatedInputSizes (typeAndPayload (fun _ => true)) (fun _ => []) none
+    ⟨some (Btc.Spend.p2wpkh (List.replicate 20 7)), [], [], [], none, false, [], []⟩ = .ok (0, [72, 33]) := by decide
+example : coversIn (0, [71, 33]) (0, [72, 33]) := by simp [coversIn, covers]
+example : txWeight [(0, [71, 33])] 1 31 = 437 ∧ txWeight [(0, [72, 33])] 1 31 = 438 := by decide
+example : txWeight [(252, [])] 1 34 < txWeight [(253, [])] 1 34 := by decide
+
+/-! ## sig_ops (legacy count, `GetSigOpCount(false)`) -/
+
+/-- the count a script announces is bounded by its length: at most MAX_PUBKEYS_PER_MULTISIG per byte walked,
+    whatever the bytes (a push running past the end just ends the walk) -/
+theorem sig_op_count_bounded (script : Bytes) :
+    sigOpCount script ≤ Gen.Fee.SIGOPS_MULTISIG_COST * script.length := by
+  unfold sigOpCount
+  have h1 := sum_map_le (Btc.Script.opCodeSpans script) Gen.Fee.SIGOPS_MULTISIG_COST
+    (fun sp => sigOpCost sp.1) (fun x => sigOpCost_le x.1)
+  have h2 : (Btc.Script.opCodeSpans script).length ≤ script.length :=
+    opCodeSpansFrom_length script.length script 0
+  have := Nat.mul_le_mul_left Gen.Fee.SIGOPS_MULTISIG_COST h2
+  omega
+
+-- p2pkh announces 1, a 2-of-3 multisig 20 (not 3), an OP_CHECKSIG inside a push none, a truncated push ends the walk
+example : sigOpCount (Btc.Spend.p2pkh (List.replicate 20 7)) = 1 := by decide
+example : sigOpCount (Btc.Spend.multisig 2 [List.replicate 33 2, List.replicate 33 3, List.replicate 33 2]) = 20 := by
+  decide +kernel
+example : sigOpCount [2, 0xac, 0xac, 0xac] = 1 := by decide
+example : sigOpCount [0xac, 0x4b, 0xac, 0xac] = 1 := by decide
 
 end Props.C18
